@@ -284,20 +284,46 @@ Proof.
 Qed.
 
 (* ---------- resolve_group ---------- *)
+(* unfolding lemmas (kept opaque to the kernel: never let it unfold [resolve_value 100]) *)
+Lemma resolve_group_nil : forall s sk fname, resolve_group s sk fname [] = SOk [].
+Proof. reflexivity. Qed.
+Lemma resolve_group_SBind : forall s sk fname sc sel arg v line rest,
+  resolve_group s sk fname (SBind sc sel arg v line :: rest) =
+  match resolve_value 100 s sk v with
+  | SErr e => with_loc (fname, line) (SErr e)
+  | SOk v' => match resolve_group s sk fname rest with
+              | SErr e => SErr e
+              | SOk r' => SOk (SBind sc sel arg v' line :: r')
+              end
+  end.
+Proof. reflexivity. Qed.
+Lemma resolve_group_other : forall s sk fname st rest,
+  (forall sc sel arg v line, st <> SBind sc sel arg v line) ->
+  resolve_group s sk fname (st :: rest) =
+  match resolve_group s sk fname rest with SErr e => SErr e | SOk r' => SOk (st :: r') end.
+Proof.
+  intros s sk fname st rest Hst. destruct st as [sc sel arg v line| | |]; try reflexivity.
+  exfalso. eapply Hst. reflexivity.
+Qed.
+
 Lemma resolve_group_is_include : forall s sk fname g g',
   resolve_group s sk fname g = SOk g' -> map is_include g' = map is_include g.
 Proof.
   intros s sk fname g. induction g as [|st rest IH]; intros g' H.
-  - cbn [resolve_group] in H. inversion H. reflexivity.
-  - destruct st as [sc sel arg v line|sc sel line|m isf al line|v line]; cbn [resolve_group] in H.
-    + destruct (resolve_value 100 s sk v) as [v'|e]; [|rewrite with_loc_SErr in H; discriminate].
+  - rewrite resolve_group_nil in H. inversion H. reflexivity.
+  - destruct st as [sc sel arg v line|sc sel line|m isf al line|v line].
+    + rewrite resolve_group_SBind in H.
+      destruct (resolve_value 100 s sk v) as [v'|e]; [|rewrite with_loc_SErr in H; discriminate].
       destruct (resolve_group s sk fname rest) as [r'|e]; [|discriminate].
       inversion H. cbn [map]. rewrite (IH r' eq_refl). reflexivity.
-    + destruct (resolve_group s sk fname rest) as [r'|e]; [|discriminate].
+    + rewrite resolve_group_other in H by (intros; discriminate).
+      destruct (resolve_group s sk fname rest) as [r'|e]; [|discriminate].
       inversion H. cbn [map]. rewrite (IH r' eq_refl). reflexivity.
-    + destruct (resolve_group s sk fname rest) as [r'|e]; [|discriminate].
+    + rewrite resolve_group_other in H by (intros; discriminate).
+      destruct (resolve_group s sk fname rest) as [r'|e]; [|discriminate].
       inversion H. cbn [map]. rewrite (IH r' eq_refl). reflexivity.
-    + destruct (resolve_group s sk fname rest) as [r'|e]; [|discriminate].
+    + rewrite resolve_group_other in H by (intros; discriminate).
+      destruct (resolve_group s sk fname rest) as [r'|e]; [|discriminate].
       inversion H. cbn [map]. rewrite (IH r' eq_refl). reflexivity.
 Qed.
 
